@@ -121,8 +121,8 @@ def check_spec(spec: NetSpec, label, st: Stats, plan):
     case0 = {"spec": spec.describe(), "config": label, "P": P}
     try:
         base = [np_step(spec, v, P)[0] for _, v in vecs]
-        F0, b0, _ = cs_compile(spec, "SX", P, compact=2)
-        lay0 = Layout(spec, compact=2)
+        F0, b0, _ = cs_compile(spec, "SX", P, compact=2, more_out=True)
+        lay0 = Layout(spec, compact=2, more_out=True)
         base_sx = eval_layout(F0, lay0, [v for _, v in dvecs])
     except Exception as e:  # noqa: BLE001
         return [(f"C14/exception/{exc_site(e)}/{type(e).__name__}", f"base network: {exc_text(e)}", case0)]
@@ -143,8 +143,8 @@ def check_spec(spec: NetSpec, label, st: Stats, plan):
                     break
             if oi % plan["sx_every"] == 0:
                 b = build(spec, order=order)
-                F, _, _ = cs_compile(spec, "SX", P, compact=2, built=b)
-                lay = Layout(spec, order=order, compact=2)
+                F, _, _ = cs_compile(spec, "SX", P, compact=2, built=b, more_out=True)
+                lay = Layout(spec, order=order, compact=2, more_out=True)
                 got = eval_layout(F, lay, [v for _, v in dvecs])
                 st.inc("executions", len(dvecs))
                 for (vl, v), g, r in zip(dvecs, got, base_sx):
@@ -168,7 +168,7 @@ def check_spec(spec: NetSpec, label, st: Stats, plan):
                     problems.append((f"C14/renaming/{rname}/numpy", f"{msg} (original names) at {vl}", case))
                     break
             b = build(spec, names=names)
-            F, _, _ = cs_compile(spec, "SX", P, compact=2, built=b)
+            F, _, _ = cs_compile(spec, "SX", P, compact=2, built=b, more_out=True)
             got = eval_layout(F, lay0, [v for _, v in dvecs])
             st.inc("executions", len(dvecs))
             for (vl, v), g, r in zip(dvecs, got, base_sx):
@@ -214,7 +214,7 @@ def check_spec(spec: NetSpec, label, st: Stats, plan):
                     if msg:
                         problems.append(("C14/scaling/numpy", f"turn rates of node {node} x {f}: {msg} at {vl}", case))
                         break
-                F, _, _ = cs_compile(sp2, "SX", P, compact=2)
+                F, _, _ = cs_compile(sp2, "SX", P, compact=2, more_out=True)
                 got = eval_layout(F, lay0, [v for _, v in dvecs])
                 st.inc("executions", len(dvecs))
                 for (vl, v), g, r in zip(dvecs, got, base_sx):
